@@ -203,7 +203,31 @@ theorem exec_noof (M : Machine) (obj : HostVal) : ∀ f, NoOofAt M obj f
     have ih := exec_noof M obj f
     refine ⟨?_, ?_, ?_, ?_, ?_, ?_, ?_⟩
     · intro x env out e env' o h
-      cases x <;> simp only [execE] at h
+      cases x
+      case «infix» op l r =>
+        cases l <;> simp only [execE] at h
+        case ident name =>
+          cases hco : compoundOp op with
+          | none => simp only [hco, Outcome.failed.injEq] at h; rw [← h.1]; simp [NotOof]
+          | some oo =>
+            simp only [hco] at h
+            cases hl : evalE M obj env (.ident name) out with
+            | mk res o1 =>
+              cases res with
+              | error y => simp only [hl, Outcome.failed.injEq] at h; rw [← h.1]; exact evalE_noof M obj env _ out y o1 hl
+              | ok lv =>
+                simp only [hl] at h
+                cases hr : evalE M obj env r o1 with
+                | mk res2 o2 =>
+                  cases res2 with
+                  | error y => simp only [hr, Outcome.failed.injEq] at h; rw [← h.1]; exact evalE_noof M obj env r o1 y o2 hr
+                  | ok rv =>
+                    simp only [hr] at h
+                    cases hb : binop M oo lv rv with
+                    | error y => simp only [hb, Outcome.failed.injEq] at h; rw [← h.1]; exact binop_noof hb
+                    | ok p => simp [hb] at h
+        all_goals (simp only [Outcome.failed.injEq] at h; rw [← h.1]; simp [NotOof])
+      all_goals simp only [execE] at h
       case assign name v =>
         cases hv : evalE M obj env v out with
         | mk res o1 =>
